@@ -226,11 +226,10 @@ func genOvr(r *Rng, cp *hermes.CropParam, kind int, name string, invalid bool) *
 func runC18Case(tier string, seed uint64, idx int, keepDir string) *CaseResult {
 	res := &CaseResult{Prop: "C18", Seed: seed, Index: idx, Status: "ok", Cov: map[string]int64{}}
 	r := NewRng(mix(mix(seed, uint64(idx)), 1818))
-	ci := &cropTable[idx%len(cropTable)] // every shipped annual crop file in turn
+	cf := c13CropFiles[idx%len(c13CropFiles)] // every shipped crop parameter file in turn (varieties and permanent crops included)
 	p := defaultProfile()
 	p.Inject, p.Measurement = 0, 0
-	p.Crops = []string{ci.Code}
-	p.Years = [2]int{2, 2}
+	p.Years = [2]int{3, 3}
 	p.ColdClimate = 0.1
 	p.PTFProb, p.ExplicitProb = 0.05, 0.1
 	sc := genWithProfile("C18", seed, idx, r, p)
@@ -238,10 +237,11 @@ func runC18Case(tier string, seed uint64, idx int, keepDir string) *CaseResult {
 	sc.ResultFormat = 1
 	sc.DailyCols = pairDailyCols(sc.Soil.N())
 	sc.Latitude = float64(r.Range(350, 600)) / 10 // a climate in which the crops develop
-	// target: a rotation entry that is sown inside the period
+	c13Rotation(sc, r, cf[0], cf[1], 0.15)
+	// target: the rotation entry of that file, sown inside the period
 	target := -1
 	for i := 1; i < len(sc.Rotation); i++ {
-		if sc.Rotation[i].Sow.Zeit() < sc.End.Zeit()-60 {
+		if sc.Rotation[i].Crop == cf[0] && sc.Rotation[i].Variety == cf[1] && sc.Rotation[i].Sow.Zeit() < sc.End.Zeit()-60 {
 			target = i
 			break
 		}
@@ -295,7 +295,7 @@ func runC18Case(tier string, seed uint64, idx int, keepDir string) *CaseResult {
 		}{2, n})
 	}
 	for k := 0; k < nOv; k++ {
-		kd := kinds[(idx/len(cropTable)+k*7+r.Intn(2)*0)%len(kinds)]
+		kd := kinds[(idx/len(c13CropFiles)+idx+k*7)%len(kinds)]
 		if k > 0 {
 			kd = kinds[r.Intn(len(kinds))]
 		}
@@ -411,8 +411,8 @@ func init() {
 		floors = append(floors, "param_"+n)
 	}
 	otherChecks["C18"] = func(tier string, seed uint64) int {
-		spec := checkSpec{Prop: "C18", Level: "exploration", NQuick: 260, NThorough: 5200,
-			Rule:   "case i uses the shipped parameter file of crop i mod 13 (all shipped annual main crops, varieties included) and 1-3 (thorough: up to 6) overrides cycling through every overridable base / per-stage / per-organ parameter with values inside the valid range; run A = override on the batch line, run B = no override on a parameter folder whose file carries the same edit, all result files byte-identical (12 significant digits of crop, water, N and temperature state per day); 30% of the cases carry one out-of-range value or index and must equal the run without overrides; evaluations = cases (2-3 full runs each), non-trivial = pairs in which the override actually changes the results relative to the baseline (rejection cases: run > 30 days)",
+		spec := checkSpec{Prop: "C18", Level: "exploration", NQuick: 280, NThorough: 5600,
+			Rule:   "case i uses shipped parameter file i mod 28 (every shipped file: annual main crops, varieties, catch crops and the permanent crops grown as consecutive cuts) and 1-3 (thorough: up to 6) overrides cycling through every overridable base / per-stage / per-organ parameter with values inside the valid range; run A = override on the batch line, run B = no override on a parameter folder whose file carries the same edit, all result files byte-identical (12 significant digits of crop, water, N and temperature state per day); 30% of the cases carry one out-of-range value or index and must equal the run without overrides; evaluations = cases (2-3 full runs each), non-trivial = pairs in which the override actually changes the results relative to the baseline (rejection cases: run > 30 days)",
 			Floors: floors}
 		return runSimCheck(spec, tier, seed)
 	}
